@@ -274,12 +274,24 @@ def run_unary(case, ctx, g):
     x = gens.make_tt(case['N1'], case['R1'], dt, case['vals'], g, M=M1)
     y = gens.make_tt(case['N2'], case['R2'], dt, case['vals'], g, M=M2)
     op = case['op']
+    mixed = None
+    if op in ('pow', 'kron') and case['seed'] % 4 == 2:
+        # operands of DIFFERENT dtypes: the Kronecker product takes torch's promoted dtype (float64 x complex64 -> complex128) and loses nothing of either factor
+        pair = [(torch.float64, torch.complex64), (torch.complex64, torch.float64), (torch.float32, torch.float64), (torch.float32, torch.complex128)][(case['seed'] // 4) % 4]
+        x = gens.make_tt(case['N1'], case['R1'], pair[0], 'gauss', g, M=M1)
+        y = gens.make_tt(case['N2'], case['R2'], pair[1], 'gauss', g, M=M2)
+        mixed = torch.promote_types(pair[0], pair[1])
+        dt = mixed
+        ctx.count('kron:mixed-dtypes')
     kindname = 'operator' if ttm else 'tensor'
     key = 'unary/%s/%s' % (op, kindname)
     what = '%s N1=%s R1=%s N2=%s R2=%s ttm=%s %s' % (op, case['N1'], case['R1'], case['N2'], case['R2'], ttm, case['dtype'])
     dx, dy = dn.D(x), dn.D(y)
 
     def kr(a, b):
+        if a.dtype != b.dtype:
+            ct = torch.promote_types(a.dtype, b.dtype)
+            a, b = a.to(ct), b.to(ct)
         if not ttm:
             return torch.tensordot(a, b, dims=0)
         t = torch.tensordot(a, b, dims=0)   # M1 N1 M2 N2
@@ -309,7 +321,9 @@ def run_unary(case, ctx, g):
     except ValueError as e:
         ctx.viol(key + '/clause=ill-formed-result', '%s: %s' % (what, e))
         return
-    exact = gens.exact_ok(dt, gens.abs_bound(x) * gens.abs_bound(y))
+    exact = gens.exact_ok(dt, gens.abs_bound(x) * gens.abs_bound(y)) and mixed is None
+    if mixed is not None:
+        ref = ref.to(torch.complex128) if mixed.is_complex else ref.to(torch.float64)
     compare(ctx, key, got, ref, exact, dn.ueps(dt), dn.s_rep(x) * dn.s_rep(y), what)
     check_dtype(ctx, key, res, dt, what)
     check_ranks(ctx, key, res, expR, what)
